@@ -115,8 +115,11 @@ def morgan_generator(
     if atom_labels is not None:
         assert len(atom_labels) == n_atoms
 
-    atom_hash = (
-        label_hash(mg, ("atom_type",)) if atom_labels is None else atom_labels
+    # own copy: the caller's labels (shared between the reactant, product
+    # and transition state generators of a reaction) must not be modified
+    atom_hash = np.array(
+        label_hash(mg, ("atom_type",)) if atom_labels is None else atom_labels,
+        dtype=np.int64,
     )
     atom_hash_view = atom_hash.view()
     atom_hash_view.setflags(write=False)
@@ -155,9 +158,19 @@ def morgan_generator(
         id_nbrs_tuple_list.append((ids, nbrs))
 
     for _ in itertools.repeat(None):
+        prev_atom_hash = atom_hash.copy()
         for ids, nbrs in id_nbrs_tuple_list:
-            # Compute the new hash for each atom based on its neighbors
-            atom_hash[ids] = numpy_int_multiset_hash(atom_hash[nbrs])
+            # Compute the new hash for each atom based on its own previous
+            # hash followed by the sorted previous hashes of its neighbors
+            atom_hash[ids] = numpy_int_tuple_hash(
+                np.concatenate(
+                    (
+                        prev_atom_hash[ids][:, np.newaxis],
+                        np.sort(prev_atom_hash[nbrs], axis=-1),
+                    ),
+                    axis=-1,
+                )
+            )
         atom_hash_view = atom_hash.view()
         atom_hash_view.setflags(write=False)
         yield atom_hash_view
